@@ -133,7 +133,25 @@ def _tcsh_wordbreak(i):
 
 FMT = ("C02", "C03", "C04", "C05", "C06")
 
+def _err_collision_applies(i):
+    msgs = (i.get("meta") or {}).get("messages") or []
+    if not msgs:
+        return False
+    for v in i.get("values") or []:
+        val = v.get("value") or ""
+        clean = "".join(c for c in val if c not in TCL)
+        if clean != val and re.search(r"(ERR\d*|_)$", clean):
+            return True
+    return False
+
+
+def _err_collision_neutral(i):
+    return _map_value_fields(i, lambda s: "".join(c for c in s if c not in TCL), fields=("value",))
+
+
 CLASSES = [
+    Class("err_name_collides_after_sanitising", ("C06",), ("value",), _err_collision_applies, _err_collision_neutral,
+          "the names of the synthetic error entries (`<word>ERR`, `ERR1`, ...) are chosen distinct from the candidates' raw values, but the formatters drop tab / CR / LF afterwards: a candidate `x<CR>ERR` and the entry `xERR` come out identical"),
     Class("filler_typed_E", ("C02", "C06"), ("value",), _word_ends_e, _neutral_word_e,
           "one message and no candidate while the typed word ends in E/ER/ERR: the filler entry `_` is built from the word minus that ending and does not extend what was typed"),
     Class("bash_common_prefix_not_extending", ("C02", "C04", "C06"), ("value",),
